@@ -295,6 +295,16 @@ fn depth_bombs(rng: &mut Rng, max_depth: usize) -> Vec<(String, String)> {
         out.push((format!("list-comprehension:{d}"), format!("RETURN {}", wrap("[y IN ", "[1]", " | y]"))));
         out.push((format!("add-chain:{d}"), format!("RETURN 1{}", " + 1".repeat(d))));
         out.push((format!("and-chain:{d}"), format!("RETURN true{}", " AND true".repeat(d))));
+        // operator chains the parser rewrites or folds in its own loops: chained comparisons
+        // (a < b < c is (a < b) AND (b < c)), mixed arithmetic, string and list operators, postfix tests
+        out.push((format!("comparison-chain:{d}"), format!("RETURN 0{} AS r", (1..=d).map(|i| format!(" < {i}")).collect::<String>())));
+        out.push((format!("comparison-chain-mixed:{d}"), format!("RETURN 0{} AS r", (1..=d).map(|i| format!(" {} {i}", ["<", "<=", "<>", "="][i % 4])).collect::<String>())));
+        out.push((format!("or-xor-chain:{d}"), format!("RETURN false{}", (0..d).map(|i| if i % 2 == 0 { " OR false" } else { " XOR true" }).collect::<String>())));
+        out.push((format!("mul-mod-chain:{d}"), format!("RETURN 1{}", (0..d).map(|i| [" * 1", " % 7", " - 0", " / 1"][i % 4]).collect::<String>())));
+        out.push((format!("string-op-chain:{d}"), format!("RETURN 'a'{}", " + 'b'".repeat(d))));
+        out.push((format!("in-chain:{d}"), format!("RETURN 1{}", " IN [true]".repeat(d))));
+        out.push((format!("is-null-chain:{d}"), format!("RETURN 1{}", " IS NOT NULL".repeat(d))));
+        out.push((format!("power-chain:{d}"), format!("RETURN 1{}", " ^ 1".repeat(d))));
         out.push((format!("index-chain:{d}"), format!("RETURN [[1]]{}", "[0]".repeat(d))));
         out.push((format!("property-chain:{d}"), format!("RETURN {{a: 1}}{}", ".a".repeat(d))));
         if d <= 5000 {
@@ -468,7 +478,7 @@ pub fn main(args: &Args) -> Report {
         &args.tier,
         args.seed,
         "exploration",
-        "query texts from six families — random bytes/Unicode; grammar-generated Cypher over all clauses and ~60 functions; token-level mutations of query strings harvested at run time from the repository's tests, fuzz regressions and sources; depth bombs (17 constructs x nesting/chain depths 10 .. 200000); huge and extreme literals; random parameters of every kind — prepared and executed (streaming read with reification, then execute_mixed in a dropped transaction) with soft_timeout_ms=250 in child processes on the main thread (8 MiB stack, RLIMIT_AS 16 GiB), on an uncompacted and a compacted graph. Oracle: the child does not die by signal, no panic is caught, and no call returns later than max(20 x timeout, timeout + 20 s). A cell is (family, outcome)",
+        "query texts from six families — random bytes/Unicode; grammar-generated Cypher over all clauses and ~60 functions; token-level mutations of query strings harvested at run time from the repository's tests, fuzz regressions and sources; depth bombs (25 constructs x nesting/chain depths 10 .. 200000); huge and extreme literals; random parameters of every kind — prepared and executed (streaming read with reification, then execute_mixed in a dropped transaction) with soft_timeout_ms=250 in child processes on the main thread (8 MiB stack, RLIMIT_AS 16 GiB), on an uncompacted and a compacted graph. Oracle: the child does not die by signal, no panic is caught, and no call returns later than max(20 x timeout, timeout + 20 s). A cell is (family, outcome)",
     );
     rep.assume("errors are fine; only abnormal termination, caught panics and the huge time bound count; inputs are bounded to 4 MiB of text");
     let mut rng = Rng::new(args.seed);
